@@ -51,7 +51,7 @@ def findings():
 
 
 def seeded():
-    rows = ["| seeded change | property | what it needs to manifest | suite with change | checks run → result |", "|---|---|---|---|---|"]
+    rows = ["| seeded change | property | what it needs to manifest | suite with change | checks run → result | re-run at the end (own check) |", "|---|---|---|---|---|---|"]
     d = os.path.join(V, "seeded")
     for n in sorted(os.listdir(d)):
         try:
@@ -62,7 +62,15 @@ def seeded():
         res = "; ".join("%s: %s" % (k, ("VIOLATION" + (" (no failing input)" if v.get("no_failing_input_found") and v.get("no_failing_input_found") == v.get("violation_lines") else " with failing input")) if v["exit"] else "not caught")
                         for k, v in c.get("checks", {}).items())
         needs = str(m.get("needs", ""))[:260].replace("|", "/").replace("\n", " ")
-        rows.append("| %s | %s | %s | %s | %s |" % (n, m.get("property"), needs, c.get("test_suite"), res))
+        try:
+            g = json.load(open(os.path.join(d, n, "regress.json")))
+            if "skipped" in g:
+                reg = "patch no longer applies at %s" % g.get("repo_head")
+            else:
+                reg = "%s at %s: %s" % (g["check"], g.get("repo_head"), ("VIOLATION" + (" (no failing input)" if g.get("no_failing_input_found") and g.get("no_failing_input_found") == g.get("violation_lines") else " with failing input")) if g["exit"] else "NOT CAUGHT")
+        except Exception:
+            reg = "-"
+        rows.append("| %s | %s | %s | %s | %s | %s |" % (n, m.get("property"), needs, c.get("test_suite"), res, reg))
     return "\n".join(rows)
 
 
